@@ -106,6 +106,23 @@ fn judge_pair<T: Clone + PartialOrd + Debug>(
     }
 }
 
+/// A NaN probe is a member of no closed set of reals; both views must say so (and hence agree)
+fn judge_nan_probe(ty: &str, a: &Interval<f64>, case: &dyn Fn() -> Value, l: &mut Local) {
+    for x in [f64::NAN, -f64::NAN] {
+        l.eval();
+        l.count("NaN probe judged");
+        let (g1, g2) = (a.contains(&x), <Interval<f64> as RangeBounds<f64>>::contains(a, &x));
+        if g1 || g2 {
+            l.violation(
+                format!("{}|self={}|NaN-probe|got={}", if g1 { "contains" } else { "RangeBounds::contains" }, ikind(a), true),
+                format!("NaN is reported as a member of a {} interval (contains: {}, RangeBounds view: {})", ikind(a), g1, g2),
+                case(),
+                json!({"type": ty, "self": format!("{:?}", a), "x": "NaN", "contains": g1, "RangeBounds::contains": g2}),
+            );
+        }
+    }
+}
+
 fn sweep<T: Clone + PartialOrd + Debug + Sync + Send>(run: &Arc<Run>, ty: &'static str, chain: Vec<T>, probes: Vec<T>) {
     let ivs = intervals(&chain);
     let n = ivs.len() as u64;
@@ -158,7 +175,7 @@ fn rand_interval_f64(r: &mut Rng) -> Interval<f64> {
 pub fn run(run: &Arc<Run>) {
     run.set_rule(
         "exhaustive: every ordered pair of well-formed intervals (3 kinds) over a totally ordered chain x every probe value, for i32 {0..6}, f64 {-inf,-1,-0.0,+0.0,1,+inf}, char, &str, String; plus seeded random i64/f64 pairs. \
-         Each (a,b) is judged for intersects (both directions), includes, is_included_in and, per probe, contains and RangeBounds::contains against the extended-real closed-set model. \
+         Each (a,b) is judged for intersects (both directions), includes, is_included_in and, per probe, contains and RangeBounds::contains against the extended-real closed-set model; for f64 intervals a NaN probe is a member of none, through either view. \
          A case is a pair of intervals (all are non-trivial); distinct = distinct (type, a, b) fingerprints.",
     );
     run.set_exhaustive(true);
@@ -170,6 +187,13 @@ pub fn run(run: &Arc<Run>) {
         vec![f64::NEG_INFINITY, -1.0, -0.0, 0.0, 1.0, f64::INFINITY],
         vec![f64::NEG_INFINITY, -2.0, -1.0, -0.0, 0.0, 0.5, 1.0, 2.0, f64::INFINITY],
     );
+    {
+        let mut l = run.local();
+        for (ia, a) in intervals(&[f64::NEG_INFINITY, -1.0, -0.0, 0.0, 1.0, f64::INFINITY]).iter().enumerate() {
+            judge_nan_probe("f64", a, &|| json!({"ty": "f64-nan", "a": ia}), &mut l);
+        }
+        run.absorb(l);
+    }
     sweep::<char>(run, "char", vec!['a', 'b', 'c', 'd', 'e'], vec!['A', 'a', 'b', 'c', 'd', 'e', 'f']);
     sweep::<&str>(run, "&str", vec!["", "a", "ab", "b", "ba"], vec!["", "a", "aa", "ab", "b", "ba", "c"]);
     sweep::<String>(
@@ -196,6 +220,7 @@ pub fn run(run: &Arc<Run>) {
             let b = rand_interval_f64(&mut r);
             let probes: Vec<f64> = vec![r.uniform(-10.0, 10.0), 0.0, -0.0, f64::INFINITY, f64::NEG_INFINITY, r.range(-3, 3) as f64];
             judge_pair(ty, &a, &b, &probes, &case, l);
+            judge_nan_probe(ty, &a, &case, l);
         }
     };
     if let Some(case) = &run.replay_case {
@@ -218,6 +243,7 @@ pub fn run(run: &Arc<Run>) {
             }
         }
     }
+    req.push("NaN probe judged".to_string());
     let req: Vec<&str> = req.iter().map(|s| s.as_str()).collect();
     run.require(&req);
 }
